@@ -24,7 +24,7 @@ def unesc(s):
 
 
 class Obs:
-    __slots__ = ('reports', 'ok', 'trace', 'clauses', 'outcome', 'q', 'qs', 'create', 'probe', 'assign', 'bad')
+    __slots__ = ('reports', 'ok', 'trace', 'clauses', 'outcome', 'q', 'qs', 'create', 'probe', 'assign', 'bad', 'exc_arg')
 
     def __init__(self):
         self.reports = []   # (tag, sev, file, line, msg)
@@ -38,6 +38,7 @@ class Obs:
         self.probe = None
         self.assign = None
         self.bad = []
+        self.exc_arg = None
 
 
 _loc_line_re = re.compile(r'^(\S*shapes_\w+\.cpp):(\d+)$')
@@ -146,6 +147,8 @@ def parse_scenarios(text):
                     tgt.outcome = ('exc', t[2], int(t[3]))
                     if t[2] == 'P' and unesc(t[4]) != 'P%d' % int(t[3]):
                         tgt.bad.append('what() payload %r' % unesc(t[4]))
+                    # the argument the THROW expression was evaluated with travels in the exception object
+                    tgt.exc_arg = int(t[5]) if t[2] == 'P' and len(t) > 5 else (int(t[4]) if t[2] == 'I' and len(t) > 4 else None)
                 else:
                     tgt.outcome = ('exc', t[2]) + tuple(t[3:])
             else:
@@ -519,6 +522,11 @@ def compare(pred, obs, reg, is_call_op):
                     add('call.handler', 'model handler %s -> %s, implementation ran %s -> %s' % (pred.handler, po, sorted(ran), oo))
                 else:
                     add('retval', 'model result %s, implementation %s' % (po, oo))
+        if oo and oo[0] == 'exc' and oo[1] in ('P', 'I') and obs.exc_arg is not None:
+            # the exception the caller receives is the value of this call's THROW expression, not an earlier one's
+            xs = [c for c in obs.clauses if c[0] == oo[2] and c[1] == 'X']
+            if xs and xs[-1][3] != obs.exc_arg:
+                add('retval', 'caller received the exception object made for argument %d, this call\'s THROW expression was evaluated with %d' % (obs.exc_arg, xs[-1][3]))
         eff_o = [c for c in obs.clauses if c[0] in ('N{', 'N}') or c[1] in ('S', 'V', 'X')]
         eff_p = [(c if c[0] != 'N{' else ('N{',)) for c in pred.clauses]
         if eff_o != eff_p:
